@@ -9,29 +9,91 @@ abbrev Bytes := List Byte
 
 namespace Wire
 
+/-- fuel-indexed worker for `varint` (structural recursion, so that closed terms evaluate by
+    `decide`/`rfl`; the fuel `n` is always more than enough, see `varintAux_fuel`) -/
+def varintAux : Nat → Nat → Bytes
+  | 0, n => [BitVec.ofNat 8 n]
+  | fuel+1, n => if n < 128 then [BitVec.ofNat 8 n] else BitVec.ofNat 8 (n % 128 + 128) :: varintAux fuel (n / 128)
+
 /-- Shortest base-128 (varint) encoding of a natural number. -/
-def varint (n : Nat) : Bytes :=
-  if n < 128 then [BitVec.ofNat 8 n] else BitVec.ofNat 8 (n % 128 + 128) :: varint (n / 128)
-decreasing_by omega
+def varint (n : Nat) : Bytes := varintAux n n
+
+def varintLenAux : Nat → Nat → Nat
+  | 0, _ => 1
+  | fuel+1, n => if n < 128 then 1 else 1 + varintLenAux fuel (n / 128)
 
 /-- Number of bytes of the shortest varint. -/
-def varintLen (n : Nat) : Nat :=
-  if n < 128 then 1 else 1 + varintLen (n / 128)
-decreasing_by omega
+def varintLen (n : Nat) : Nat := varintLenAux n n
+
+theorem varintAux_fuel (f1 f2 n : Nat) (h1 : n ≤ f1) (h2 : n ≤ f2) : varintAux f1 n = varintAux f2 n := by
+  induction f1 generalizing f2 n with
+  | zero =>
+    have : n = 0 := by omega
+    subst this
+    cases f2 <;> simp [varintAux]
+  | succ f1 ih =>
+    cases f2 with
+    | zero =>
+      have : n = 0 := by omega
+      subst this; simp [varintAux]
+    | succ f2 =>
+      simp only [varintAux]
+      split
+      · rfl
+      · rw [ih f2 (n / 128) (by omega) (by omega)]
+
+theorem varintLenAux_fuel (f1 f2 n : Nat) (h1 : n ≤ f1) (h2 : n ≤ f2) : varintLenAux f1 n = varintLenAux f2 n := by
+  induction f1 generalizing f2 n with
+  | zero =>
+    have : n = 0 := by omega
+    subst this
+    cases f2 <;> simp [varintLenAux]
+  | succ f1 ih =>
+    cases f2 with
+    | zero =>
+      have : n = 0 := by omega
+      subst this; simp [varintLenAux]
+    | succ f2 =>
+      simp only [varintLenAux]
+      split
+      · rfl
+      · rw [ih f2 (n / 128) (by omega) (by omega)]
+
+/-- the defining equation -/
+theorem varint_eq (n : Nat) :
+    varint n = if n < 128 then [BitVec.ofNat 8 n] else BitVec.ofNat 8 (n % 128 + 128) :: varint (n / 128) := by
+  unfold varint
+  cases n with
+  | zero => simp [varintAux]
+  | succ n =>
+    simp only [varintAux]
+    split
+    · rfl
+    · rw [varintAux_fuel n ((n + 1) / 128) ((n + 1) / 128) (by omega) (Nat.le_refl _)]
+
+theorem varintLen_eq (n : Nat) : varintLen n = if n < 128 then 1 else 1 + varintLen (n / 128) := by
+  unfold varintLen
+  cases n with
+  | zero => simp [varintLenAux]
+  | succ n =>
+    simp only [varintLenAux]
+    split
+    · rfl
+    · rw [varintLenAux_fuel n ((n + 1) / 128) ((n + 1) / 128) (by omega) (Nat.le_refl _)]
 
 theorem varint_length (n : Nat) : (varint n).length = varintLen n := by
   induction n using Nat.strongRecOn with
   | _ n ih =>
-    unfold varint varintLen
+    rw [varint_eq, varintLen_eq]
     split
     · rfl
     · simp [ih (n / 128) (by omega)]; omega
 
 theorem varintLen_pos (n : Nat) : 0 < varintLen n := by
-  unfold varintLen; split <;> omega
+  rw [varintLen_eq]; split <;> omega
 
 theorem varint_ne_nil (n : Nat) : varint n ≠ [] := by
-  unfold varint; split <;> simp
+  rw [varint_eq]; split <;> simp
 
 /-- Value of a sequence of 7-bit groups, least significant first; continuation bits ignored.
     This is what `parse_uint32`/`parse_uint64` compute before truncation. -/
@@ -70,7 +132,7 @@ theorem toUInt8_toNat_lt (n : Nat) (h : n < 256) : (BitVec.ofNat 8 n).toNat = n 
 theorem decGroups_varint (n : Nat) : decGroups (varint n) = n := by
   induction n using Nat.strongRecOn with
   | _ n ih =>
-    unfold varint
+    rw [varint_eq]
     split
     · simp [decGroups, toUInt8_toNat_lt n (by omega)]; omega
     · simp only [decGroups, ih (n / 128) (by omega)]
@@ -87,18 +149,16 @@ theorem scanVarint_varint (n : Nat) (rest : Bytes) (max : Nat) (h : varintLen n 
   induction n using Nat.strongRecOn generalizing max with
   | _ n ih =>
     by_cases hn : n < 128
-    · have e1 : varint n = [BitVec.ofNat 8 n] := by unfold varint; simp [hn]
-      have e2 : varintLen n = 1 := by unfold varintLen; simp [hn]
+    · have e1 : varint n = [BitVec.ofNat 8 n] := by rw [varint_eq]; simp [hn]
+      have e2 : varintLen n = 1 := by rw [varintLen_eq]; simp [hn]
       rw [e2] at h; rw [e1, e2]
       cases max with
       | zero => omega
       | succ m => simp [scanVarint, toUInt8_toNat_lt n (by omega), hn]
     · have e1 : varint n = BitVec.ofNat 8 (n % 128 + 128) :: varint (n / 128) := by
-        conv => lhs; unfold varint
-        simp [hn]
+        rw [varint_eq]; simp [hn]
       have e2 : varintLen n = 1 + varintLen (n / 128) := by
-        conv => lhs; unfold varintLen
-        simp [hn]
+        rw [varintLen_eq]; simp [hn]
       rw [e2] at h; rw [e1, e2]
       cases max with
       | zero => omega
@@ -115,7 +175,7 @@ theorem varintLen_le_of_lt (n k : Nat) (h : n < 128 ^ k) (hk : 0 < k) : varintLe
   induction k generalizing n with
   | zero => omega
   | succ k ih =>
-    unfold varintLen
+    rw [varintLen_eq]
     split
     · omega
     · rename_i hn
@@ -143,7 +203,7 @@ theorem varintLen_u32 (n : Nat) (h : n < 2 ^ 32) : varintLen n ≤ 5 :=
 theorem varintLen_mono {a b : Nat} (h : a ≤ b) : varintLen a ≤ varintLen b := by
   induction b using Nat.strongRecOn generalizing a with
   | _ b ih =>
-    unfold varintLen
+    rw [varintLen_eq a, varintLen_eq b]
     split <;> split
     · omega
     · omega
@@ -155,11 +215,10 @@ theorem lt_pow_varintLen (n : Nat) : n < 128 ^ varintLen n := by
   induction n using Nat.strongRecOn with
   | _ n ih =>
     by_cases hn : n < 128
-    · have e2 : varintLen n = 1 := by unfold varintLen; simp [hn]
+    · have e2 : varintLen n = 1 := by rw [varintLen_eq]; simp [hn]
       rw [e2]; simpa using hn
     · have e2 : varintLen n = 1 + varintLen (n / 128) := by
-        conv => lhs; unfold varintLen
-        simp [hn]
+        rw [varintLen_eq]; simp [hn]
       have := ih (n / 128) (by omega)
       rw [e2, Nat.add_comm, Nat.pow_succ]
       omega
